@@ -6,7 +6,7 @@ out=/verif/seeded/results.tsv
 : > $out
 for d in seeded/S*/; do
   id=$(basename $d)
-  prop=$(/venv/bin/python -c "import json;print(json.load(open('$d/meta.json'))['breaks_property'][:3])")
+  prop=$(/venv/bin/python -c "import json;m=json.load(open('$d/meta.json'));print(m.get('caught_by_check',m['breaks_property'])[:3])")
   t0=$(date +%s)
   res=$(tools/try_patch.sh /verif/$d/patch.diff quick $prop 2>&1)
   code=$(echo "$res" | grep "^exit=" | tail -1 | cut -d= -f2)
